@@ -16,6 +16,10 @@ def setup():
     rebuilds its own targets anyway).  Only the library and the drivers of the claimed checks are required to build;
     drivers of components still under construction are attempted best-effort."""
     ok, log = vlib.gen_constants()
+    try:
+        vlib.gen_src()
+    except Exception:
+        pass
     if not ok:
         print(log)
         return 1
@@ -60,6 +64,7 @@ def claimed_drivers():
 
     for pid in pids:
         scan(pid.lower())
+    scan("src")
     return res
 
 
@@ -79,6 +84,9 @@ def driver_targets():
     return res
 
 
+SRC_PARTS = {"C01": ["gp-memb", "gp-mb", "gp-bp", "gp-qsbr"], "C10": ["wfcq"], "C11": ["wfs", "lfs"], "C12": ["lfq"]}
+
+
 def main():
     ap = argparse.ArgumentParser()
     ap.add_argument("pid", nargs="?")
@@ -94,7 +102,11 @@ def main():
         ap.error("property id required")
     mod = importlib.import_module("props.%s" % a.pid.lower())
     if a.replay:
-        return mod.replay(json.load(open(a.replay)))
+        rp = json.load(open(a.replay))
+        if rp.get("scenario") == "src":
+            from props import src
+            return src.replay(rp)
+        return mod.replay(rp)
     chk = vlib.Check(a.pid, a.tier)
     # wall-clock guard: a check never runs away (quick checks take 10-120 s on the unchanged tree)
     import signal
@@ -108,6 +120,10 @@ def main():
     signal.alarm(int(os.environ.get("VERIF_CHECK_TIMEOUT", "2400" if a.tier == "quick" else "21600")))
     try:
         mod.run(chk)
+        # source-translator tie of the static-inline primitives this property's component is made of (props/src.py)
+        if a.pid in SRC_PARTS and not chk.violations:
+            from props import src
+            src.part(chk, SRC_PARTS[a.pid])
         signal.alarm(0)
     except Exception as ex:  # machinery failure must not look like a pass
         import traceback
